@@ -3,6 +3,7 @@ package e2
 import (
 	"context"
 	"fmt"
+	"os"
 	"strings"
 	"time"
 
@@ -44,7 +45,14 @@ func knownClass(env *core.Env, class string) bool {
 	return false
 }
 
-func isAimRun(run int) bool { return run%8 == 7 }
+// selfTest: the determinism self-test (VERIF_DETLOG) compares in-process trace
+// hashes, so its runs must not kill the process: the classes that do are
+// avoided whether or not they are listed, and no run aims at listed classes.
+var selfTest = os.Getenv("VERIF_DETLOG") != ""
+
+var processKillers = []string{"snapshot-of-list", "torn-wal-tail", "after-rconf-add-with-snapshot", "after-rconf-delete-highest-id"}
+
+func isAimRun(run int) bool { return run%8 == 7 && !selfTest }
 
 type avoidSet map[string]bool
 
@@ -55,6 +63,11 @@ func avoidFor(env *core.Env, run int) avoidSet {
 	}
 	for _, c := range avoidable {
 		if knownClass(env, c) {
+			a[c] = true
+		}
+	}
+	if selfTest {
+		for _, c := range processKillers {
 			a[c] = true
 		}
 	}
@@ -113,6 +126,15 @@ func snapKnobs(r *core.Rand, k *Knobs) {
 	k.CatchUpN = uint64(pick(r, []int{1, 2, 5, int(k.SnapCount), int(k.SnapCount)}))
 	if k.CatchUpN > k.SnapCount {
 		k.CatchUpN = k.SnapCount
+	}
+}
+
+func sectorLossKnob(k *Knobs, av avoidSet) {
+	if av["torn-wal-tail"] {
+		k.SectorLoss = "all-or-none"
+	}
+	if av["unsynced-wal-tail-lost"] {
+		k.SectorLoss = "none"
 	}
 }
 
@@ -375,6 +397,7 @@ func genC07(rng *core.Rand, env *core.Env, run int) *Scenario {
 		// nothing is lost, so every command must be answered: never give up
 		k.OpTimeoutTicks = 1 << 20
 	}
+	sectorLossKnob(k, av)
 	nclients := 2 + r.Intn(4)
 	total := pick(r, []int{12, 20, 30, 45, 60})
 	sc.Clients = genWorkload(r, av, nclients, total, true)
@@ -411,6 +434,7 @@ func genC08(rng *core.Rand, env *core.Env, run int) *Scenario {
 	if sc.Variant == "fault-free" || sc.Variant == "clean-restart" {
 		k.OpTimeoutTicks = 1 << 20
 	}
+	sectorLossKnob(k, av)
 	nclients := 1 + r.Intn(4)
 	total := pick(r, []int{12, 20, 30, 45, 60})
 	sc.Clients = genWorkload(r, av, nclients, total, true)
@@ -584,7 +608,11 @@ func genC14(rng *core.Rand, env *core.Env, run int) *Scenario {
 	type feat struct{ name, class string }
 	all := []feat{{"space", "arg-with-space"}, {"empty", "empty-arg"}, {"crlf", "arg-with-crlf"}, {"nonutf8", "non-utf8-arg"}, {"case", "mixed-case"}, {"filtered", "filtered-command"}}
 	if !r.Bool(0.3) {
-		for i := 0; i < 1+r.Intn(2); i++ {
+		nf := 1
+		if r.Bool(0.15) {
+			nf = 2
+		}
+		for i := 0; i < nf; i++ {
 			f := pick(r, all)
 			if !av[f.class] {
 				g.feats[f.name] = true
